@@ -71,13 +71,15 @@ pub struct Node {
     pub derive: &'static str,
     /// `pub struct X;` (struct nodes without outgoing edges only)
     pub unit: bool,
+    /// declared inside an inline module of its file (`pub mod m { .. }` + `pub use m::*;`)
+    pub inline_mod: bool,
 }
 
 pub const DERIVE_FORMS: &[&str] = &["both", "ser", "de", "qualified", "split"];
 
 impl Node {
     pub fn new(name: String, is_enum: bool, file: usize, serde: bool) -> Node {
-        Node { name, is_enum, file, serde, derive: "both", unit: false }
+        Node { name, is_enum, file, serde, derive: "both", unit: false, inline_mod: false }
     }
 }
 
@@ -149,7 +151,9 @@ impl TypeGraph {
             files.insert(f, String::from(PRELUDE));
         }
         for (i, n) in self.nodes.iter().enumerate() {
-            let s = files.get_mut(&n.file).unwrap();
+            let file_text = files.get_mut(&n.file).unwrap();
+            let mut def = String::new();
+            let s = &mut def;
             if n.serde {
                 s.push_str(match n.derive {
                     "ser" => "#[derive(Debug, Clone, Serialize, PartialEq, Eq, Hash)]\n",
@@ -173,6 +177,12 @@ impl TypeGraph {
                     s.push_str(&format!("    {}f{}: {},\n", vis, k, self.field_ty(e).rust_with(true, self.qualify)));
                 }
                 s.push_str("}\n\n");
+            }
+            if n.inline_mod {
+                let m = format!("inline_{}", n.name.to_lowercase());
+                file_text.push_str(&format!("pub mod {} {{\n    use super::*;\n\n    {}}}\n\npub use {}::*;\n\n", m, def.trim_end().replace('\n', "\n    ").trim_end_matches(' ').to_string() + "\n", m));
+            } else {
+                file_text.push_str(&def);
             }
         }
         for (k, r) in self.roots.iter().enumerate() {
@@ -198,7 +208,7 @@ impl TypeGraph {
 
     pub fn summary(&self) -> serde_json::Value {
         serde_json::json!({
-            "nodes": self.nodes.iter().map(|n| format!("{}{}{}@{}", if n.is_enum {"enum "} else if n.unit {"unit struct "} else {"struct "}, n.name, if n.serde {""} else {" (no serde)"}, file_path(n.file))).collect::<Vec<_>>(),
+            "nodes": self.nodes.iter().map(|n| format!("{}{}{}@{}", if n.is_enum {"enum "} else if n.unit {"unit struct "} else if n.inline_mod {"struct (inline mod) "} else {"struct "}, n.name, if n.serde {""} else {" (no serde)"}, file_path(n.file))).collect::<Vec<_>>(),
             "edges": self.edges.iter().map(|e| format!("{} -> {} via {}", self.nodes[e.from].name, self.nodes[e.to].name, e.wrap)).collect::<Vec<_>>(),
             "roots": self.roots.iter().map(|r| format!("{}[{}] {} @{}", r.site, r.wrap, self.nodes[r.node].name, file_path(r.file))).collect::<Vec<_>>(),
         })
@@ -246,6 +256,9 @@ pub fn random_graph(t: &mut Tape, allow_cycles: bool) -> TypeGraph {
         }
         if !nodes[i].is_enum && !edges.iter().any(|e| e.from == i) && t.chance(1, 4) {
             nodes[i].unit = true;
+        }
+        if t.chance(1, 6) {
+            nodes[i].inline_mod = true;
         }
     }
     let n_roots = t.range(1, 3);
